@@ -302,6 +302,30 @@ Definition sign_consistent_around (st : state2) (v : N) : bool :=
   (* degenerate (zero-area) triangles have no orientation: only the non-zero signs must agree *)
   match filter (fun s => negb (Z.eqb s 0)) signs with s :: r => forallb (Z.eqb s) r | [] => true end.
 
+(** the premise of the collapse clause: the end points are two vertices whose only common neighbours are the
+    opposite corners of the (one or two) triangles on the edge *)
+Definition vneigh (st : state2) (v : N) : list N :=
+  dedup (flat_map (fun d => (if b st 1 d =? 0 then [] else [cid st PVertex (b st 1 d)]) ++
+                            (if b st 0 d =? 0 then [] else [cid st PVertex (b st 0 d)])) (cell_of st PVertex v)).
+Definition link_condition (st : state2) (l : N) : bool :=
+  let r := b st 2 l in
+  let v1 := cid st PVertex l in let v2 := cid st PVertex (b st 1 l) in
+  let opp := cid st PVertex (b st 0 l) :: (if r =? 0 then [] else [cid st PVertex (b st 0 r)]) in
+  negb (v1 =? v2) && forallb (fun x => negb (mem_N x (vneigh st v2)) || mem_N x opp) (vneigh st v1).
+
+(** where the anchors send the surviving vertex, and the anchor it must carry: [None] when the map has no
+    vertex anchors (midpoint, nothing to carry) *)
+Definition collapse_verdict (st : state2) (l : N) : option (bool * bool * Z) :=
+  if negb (has_kind (aks st) KVA) then None else
+  match attr (mem st) KVA (cid st PVertex l), attr (mem st) KVA (cid st PVertex (b st 1 l)) with
+  | Some a1, Some a2 =>
+    match a_merge KVA a1 a2 with
+    | Some m => Some ((m =? a1)%Z, (m =? a2)%Z, m)
+    | None => None
+    end
+  | _, _ => None
+  end.
+
 (* classes: 1 ill-formed, 2 a face is not a triangle, 3 V/E/F counts, 4 C15:vertex-set-wrong,
    5 signed area not conserved, 6 orientation around the collapsed vertex, 7 swap did not produce
    the other diagonal, 8 anchors, 9 removed darts not flagged *)
@@ -349,12 +373,19 @@ Definition oracle_remesh (ts : list tok) : list (list tok) :=
         end
       | KCollapse e =>
         let l := e in let r := b st 2 l in
-        if negb (usable st l) then [[TZ 2%Z]] else
+        if negb (usable st l) || negb (link_condition st l) then [[TZ 2%Z]] else
         match vtx st l, vtx st (b st 1 l) with
         | Some v1, Some v2 =>
           let olds := vertex_multiset st in
           let news := vertex_multiset st' in
-          let cand := [vtok (Some v1); vtok (Some v2); vtok (Some (avg2 v1 v2))] in
+          let verdict_a := collapse_verdict st l in
+          let cand := match verdict_a with
+                      | None => if has_kind (aks st) KVA then [vtok (Some v1); vtok (Some v2); vtok (Some (avg2 v1 v2))]
+                                else [vtok (Some (avg2 v1 v2))]
+                      | Some (true, false, _) => [vtok (Some v1)]
+                      | Some (false, true, _) => [vtok (Some v2)]
+                      | Some (_, _, _) => [vtok (Some (avg2 v1 v2))]
+                      end in
           let removed := filter (fun d => unused (mem st') d && negb (unused (mem st) d)) (all_darts st) in
           verdict (first_bad (remesh_common st st' ++ [
             (if r =? 0 then counts_delta st st' (-1) (-2) (-1) else counts_delta st st' (-1) (-3) (-2), 3);
@@ -365,6 +396,12 @@ Definition oracle_remesh (ts : list tok) : list (list tok) :=
              existsb (fun c => multiset_eq (c :: minus_one (vtok (Some v1)) (minus_one (vtok (Some v2)) olds)) news) cand, 10);
             (existsb (fun c => multiset_eq (c :: minus_one (vtok (Some v1)) (minus_one (vtok (Some v2)) olds)) news) cand, 4);
             (Nat.eqb (length removed) (if r =? 0 then 3 else 6), 9);
+            (match verdict_a with
+             | Some (_, _, m) =>
+               existsb (fun v' => existsb (toks_eqb (vtok (vtx st' v'))) cand && toks_eqb (vanchor st' v') [TZ 1; TZ m])
+                       (ids_of st' PVertex (mesh_darts st')) && anchors_kept st st' cand
+             | None => true
+             end, 8);
             (forallb (fun v' => negb (existsb (toks_eqb (vtok (vtx st' v'))) cand) || sign_consistent_around st' v')
                      (ids_of st' PVertex (mesh_darts st')), 6) ]))
         | _, _ => [[TZ 2%Z]]
